@@ -9,7 +9,7 @@ from ref import tlv as R
 from units.cfdp_tlv import CONDITION_CODES, bt, hx
 
 PROPERTY = "C18"
-LEVEL = "exploration"
+LEVEL = "model_checking"  # bounded-exhaustive enumeration of executions against a reference model (DESIGN.md 1, 2.1)
 EXHAUSTIVE = True
 RULE = (
     "the nine reserved message kinds the library can build, each over all its parameter values: proxy put request (dest ID "
